@@ -84,15 +84,23 @@ def grep_forbidden():
     return hits
 
 
+def modules_of(prop):
+    """Props/Cnn.lean and its companions Props/Cnn_*.lean (theorems that need lemma layers which themselves import Cnn.lean)"""
+    import glob
+    d = os.path.join(LEAN, "Flumine", "Props")
+    files = [os.path.join(d, prop + ".lean")] + sorted(glob.glob(os.path.join(d, prop + "_*.lean")))
+    return [os.path.splitext(os.path.basename(f))[0] for f in files if os.path.exists(f)]
+
+
 def theorems_of(prop):
-    path = os.path.join(LEAN, "Flumine", "Props", prop + ".lean")
-    if not os.path.exists(path):
-        return []
-    with open(path) as f:
-        txt = strip_comments(f.read())
-    ns = re.search(r"^namespace\s+(\S+)", txt, re.M)
-    prefix = (ns.group(1) + ".") if ns else ""
-    return [prefix + m for m in re.findall(r"^\s*(?:protected\s+)?theorem\s+([^\s:({\[]+)", txt, re.M)]
+    names = []
+    for mod in modules_of(prop):
+        with open(os.path.join(LEAN, "Flumine", "Props", mod + ".lean")) as f:
+            txt = strip_comments(f.read())
+        ns = re.search(r"^namespace\s+(\S+)", txt, re.M)
+        prefix = (ns.group(1) + ".") if ns else ""
+        names += [prefix + m for m in re.findall(r"^\s*(?:protected\s+)?theorem\s+([^\s:({\[]+)", txt, re.M)]
+    return names
 
 
 def build_and_audit(prop, thorough):
@@ -110,7 +118,8 @@ def build_and_audit(prop, thorough):
         info["model_ok"] = rc == 0
         if rc != 0:
             info["log"] += "model/driver build failed:\n" + out[-4000:]
-        rc, out = sh(["lake", "build", "Flumine.Props." + prop], cwd=LEAN, timeout=3000)
+        mods = ["Flumine.Props." + m for m in modules_of(prop)] or ["Flumine.Props." + prop]
+        rc, out = sh(["lake", "build"] + mods, cwd=LEAN, timeout=3000)
         info["proofs_ok"] = rc == 0
         if rc != 0:
             info["log"] += "proof build failed:\n" + out[-6000:]
@@ -118,7 +127,8 @@ def build_and_audit(prop, thorough):
         if info["proofs_ok"] and info["theorems"]:
             audit = os.path.join(LEAN, ".lake", "audit_%s.lean" % prop)
             with open(audit, "w") as f:
-                f.write("import Flumine.Props.%s\n" % prop)
+                for m in mods:
+                    f.write("import %s\n" % m)
                 for t in info["theorems"]:
                     f.write("#print axioms %s\n" % t)
             rc, out = sh(["lake", "env", "lean", audit], cwd=LEAN, timeout=1200)
@@ -136,7 +146,7 @@ def build_and_audit(prop, thorough):
                     if extra:
                         info["bad"].append("%s depends on %s" % (t, extra))
             if thorough:
-                rc, out = sh(["lake", "env", "leanchecker", "Flumine.Props." + prop], cwd=LEAN, timeout=3000)
+                rc, out = sh(["lake", "env", "leanchecker"] + mods, cwd=LEAN, timeout=3000)
                 info["leanchecker"] = "ok" if rc == 0 else "FAILED: " + out[-500:]
                 if rc != 0:
                     info["bad"].append("leanchecker rejected Flumine.Props." + prop)
